@@ -39,6 +39,7 @@ func main() {
 	dumpKeys := flag.Bool("keys", false, "print all obligation keys with status")
 	noEvidence := flag.Bool("no-evidence", false, "do not write evidence (used for variant/self-validation runs)")
 	describe := flag.Bool("describe", false, "print the registered properties with their decided / not decided clauses as JSON")
+	flag.BoolVar(&dumpFieldsMode, "dump-fields", false, "with -dump-funcs: print the struct fields of the repository packages (baseline_fields.txt) instead")
 	flag.BoolVar(&dumpFuncsMode, "dump-funcs", false, "print the declared functions of the repository packages (baseline_funcs.txt) and exit")
 	flag.Parse()
 
